@@ -3,7 +3,7 @@
 From Coq Require Import String Ascii List Bool Arith ZArith.
 From Raven Require Import Base.GoStr Model.Policy Spec.Policy
   Proof.PolicyParse Proof.PolicySpam Proof.PolicyConfig Proof.PolicyRcpt Proof.PolicyData
-  Proof.PolicyTxn Proof.PolicyFacts.
+  Proof.PolicyTxn Proof.PolicyFacts Proof.PolicySession.
 Import ListNotations.
 Local Open Scope Z_scope.
 
@@ -26,6 +26,28 @@ Theorem c17_lines_are_addresses : forall cfg d addrs m,
   run_txn cfg d (map rcpt_line addrs) m = run_txn_addr cfg d addrs m.
 Proof. exact run_txn_lines. Qed.
 Print Assumptions c17_lines_are_addresses.
+
+(** S. Sessions: several transactions on one connection. Each transaction is
+    answered and files exactly as the same transaction on a fresh connection
+    over the database its predecessors left — so c17_policy_exact,
+    c17_filed_where … apply to every transaction of every session: recipients
+    of a transaction that was accepted, refused for its size (552), unparsable
+    (554), left without accepted recipient or cut by the recipient limit never
+    receive a later message and never count against a later limit. MAIL is
+    answered 250 unless the previous DATA was refused with 503 before any data
+    (no accepted recipient: that transaction is still open). *)
+Theorem c17_session_is_transactions : forall cfg bs s d,
+  s_rcpts s = [] ->
+  fst (run_session cfg (s, d) (flat_map block_cmds bs)) = blocks_replies cfg (mail_seen s) d bs /\
+  snd (snd (run_session cfg (s, d) (flat_map block_cmds bs))) = blocks_db cfg d bs /\
+  s_rcpts (fst (snd (run_session cfg (s, d) (flat_map block_cmds bs)))) = [].
+Proof. exact session_is_transactions. Qed.
+Print Assumptions c17_session_is_transactions.
+
+Theorem c17_data_resets : forall cfg d rec m,
+  rec <> [] -> fst (snd (step cfg (mkS true rec, d) (C_DATA m))) = s_reset.
+Proof. exact data_resets. Qed.
+Print Assumptions c17_data_resets.
 
 (** F. Whatever the model files, it files in the store of exactly the RCPT
     address (role store iff enabled role address, else user local@domain) and
